@@ -133,6 +133,9 @@ def inputs(tier, wd, rng):
              'struct inc2; extern struct inc2 einc2; struct inc2 { long a; char b; }; struct inc2 einc2 = { 1, 2 };', 'extern union inc3 einc3; union inc3 { double d; char c; }; union inc3 einc3 = { 1.5 };',
              'extern struct inc4 einc4; extern struct inc4 einc4; struct inc4 { _Alignas(64) char c; int i; }; struct inc4 einc4 = { 1 }; struct inc4 *pinc4 = &einc4;',
              'extern struct inc5 einc5; struct inc5 { long double ld; }; struct inc5 einc5; void *pinc5 = &einc5;', 'static struct inc6 sinc6; struct inc6 { void *p; char c; }; static struct inc6 sinc6 = { &sinc6, 1 }; void *pinc6 = &sinc6;',
+             # addresses converted to narrower integer types are not address constants of that width: rejected, or emitted with the size of the object
+             'int y3; int low3 = (int)(long)&y3;', 'int y4; struct { unsigned short h; int w; } t4 = { 7, (int)(long)&y4 };', 'int y5; unsigned short h5 = (unsigned short)(unsigned long)&y5; _Bool b5 = (_Bool)&y5; char c5 = (char)(long)&y5;',
+             'int y6; long l6 = (long)&y6; unsigned long u6 = (unsigned long)&y6 + 4; long a6[] = { (long)&y6, 1 };',
              'struct e2 { long l; }; static struct e2 t1, t2; static struct e2 t1 = { 5 }; void *pt[] = { &t1, &t2 };',
              '_Thread_local struct tlt { int a; long b; } tv1; static _Thread_local struct tlt tv2 = { 1, 2 }; long rd(void) { return tv1.b + tv2.a; }']
     fdir = os.path.join(wd, 'fixed')
